@@ -544,41 +544,41 @@ theorem ne_of_not_isEmpty_zero (dflt : ν) (t : Tree κ ν 0) (h : isEmpty dflt 
   simpa [isEmpty] using h
 
 /-- the leaf step of a fiber sum -/
-theorem addT_leaf [Add ν] (dflt : ν) (x y : ν) (q : List κ) (h : x ≠ dflt ∨ y ≠ dflt) :
-    denseAt (κ := κ) dflt 0 (addT (κ := κ) dflt 0 x y) q =
-      addExpect dflt (denseAt (κ := κ) dflt 0 x q) (denseAt (κ := κ) dflt 0 y q) := by
-  show x + y = if x ≠ dflt ∨ y ≠ dflt then x + y else dflt
+theorem addT_leaf [Add ν] (dfa dfb : ν) (x y : ν) (q : List κ) (h : x ≠ dfa ∨ y ≠ dfb) :
+    denseAt (κ := κ) dfa 0 (addT (κ := κ) dfa dfb 0 x y) q =
+      addExpect dfa dfb (denseAt (κ := κ) dfa 0 x q) (denseAt (κ := κ) dfb 0 y q) := by
+  show x + y = if x ≠ dfa ∨ y ≠ dfb then x + y else dfa
   rw [if_pos h]
 
 /-- lookup in a fiber sum: present iff presented on a side; the payload is the sum of the two
     presented payloads, an absent side contributing the default tree -/
-theorem lookup_addT [Add ν] (dflt : ν) (d : Nat) (a b : Tree κ ν (d + 1))
+theorem lookup_addT [Add ν] (dfa dfb : ν) (d : Nat) (a b : Tree κ ν (d + 1))
     (ha : WF (d + 1) a) (hb : WF (d + 1) b) (c : κ) :
-    lookup (show List (κ × Tree κ ν d) from addT dflt (d + 1) a b) c =
-      if (lookup (present dflt d a) c).isSome = true ∨ (lookup (present dflt d b) c).isSome = true then
-        some (addT dflt d ((lookup (present dflt d a) c).getD (dfltTree dflt d))
-                          ((lookup (present dflt d b) c).getD (dfltTree dflt d)))
+    lookup (show List (κ × Tree κ ν d) from addT dfa dfb (d + 1) a b) c =
+      if (lookup (present dfa d a) c).isSome = true ∨ (lookup (present dfb d b) c).isSome = true then
+        some (addT dfa dfb d ((lookup (present dfa d a) c).getD (dfltTree dfa d))
+                          ((lookup (present dfb d b) c).getD (dfltTree dfb d)))
       else none := by
-  have hsa := sorted_present dflt d a ((WF_succ d a).1 ha).1
-  have hsb := sorted_present dflt d b ((WF_succ d b).1 hb).1
-  have hm := lookup_orMerge (present dflt d a) (present dflt d b) hsa hsb c
-  have hmap := lookup_map_val (orMerge (present dflt d a) (present dflt d b))
+  have hsa := sorted_present dfa d a ((WF_succ d a).1 ha).1
+  have hsb := sorted_present dfb d b ((WF_succ d b).1 hb).1
+  have hm := lookup_orMerge (present dfa d a) (present dfb d b) hsa hsb c
+  have hmap := lookup_map_val (orMerge (present dfa d a) (present dfb d b))
     (fun _ (v : Mask × Option (Tree κ ν d) × Option (Tree κ ν d)) =>
-      addT dflt d (v.2.1.getD (dfltTree dflt d)) (v.2.2.getD (dfltTree dflt d))) c
-  have hdef : (show List (κ × Tree κ ν d) from addT dflt (d + 1) a b) =
-      (orMerge (present dflt d a) (present dflt d b)).map
-        (fun r => (r.1, addT dflt d (r.2.2.1.getD (dfltTree dflt d)) (r.2.2.2.getD (dfltTree dflt d)))) := by
+      addT dfa dfb d (v.2.1.getD (dfltTree dfa d)) (v.2.2.getD (dfltTree dfb d))) c
+  have hdef : (show List (κ × Tree κ ν d) from addT dfa dfb (d + 1) a b) =
+      (orMerge (present dfa d a) (present dfb d b)).map
+        (fun r => (r.1, addT dfa dfb d (r.2.2.1.getD (dfltTree dfa d)) (r.2.2.2.getD (dfltTree dfb d)))) := by
     rw [addT]
   rw [hdef, hmap]
-  cases hl : lookup (orMerge (present dflt d a) (present dflt d b)) c with
+  cases hl : lookup (orMerge (present dfa d a) (present dfb d b)) c with
   | none =>
     rw [hl] at hm
-    by_cases hcond : (lookup (present dflt d a) c).isSome = true ∨ (lookup (present dflt d b) c).isSome = true
+    by_cases hcond : (lookup (present dfa d a) c).isSome = true ∨ (lookup (present dfb d b) c).isSome = true
     · rw [if_pos hcond] at hm; simp at hm
     · rw [if_neg hcond]; rfl
   | some row =>
     rw [hl] at hm
-    by_cases hcond : (lookup (present dflt d a) c).isSome = true ∨ (lookup (present dflt d b) c).isSome = true
+    by_cases hcond : (lookup (present dfa d a) c).isSome = true ∨ (lookup (present dfb d b) c).isSome = true
     · rw [if_pos hcond] at hm
       rw [if_pos hcond]
       simp only [Option.map_some, Option.some.injEq, Prod.mk.injEq] at hm
